@@ -41,4 +41,4 @@ for id in C01 C02 C03 C04 C05 C06 C07 C08 C09 C10 C11 C12 C13 C14 C16 C17 C18 C1
   out=$(/verif/bin/owcheck -repo /repo -verif /tmp/seedverif -prop $id 2>&1); rc=$?
   if [ $rc -ne 0 ]; then echo "   CHECK $id FIRES:"; echo "$out" | grep -v '^VIOLATION\|^KNOWN' | grep -v ' quick: ' | head -4 | cut -c1-300; fi
 done
-git -C /repo checkout -- . ; git -C /repo status --short | head -3
+git -C /repo checkout -- . ; git -C /repo clean -fdq; git -C /repo status --short | head -3
